@@ -43,6 +43,12 @@ func runBinder(c *Case) Verdict {
 	var reset func(string)
 	var entered func() (bool, bool, []interface{})
 	var errRet, errPan error
+	var receiver interface{}
+	if c.Path == "dotless" {
+		receiver = dotless.BinderReceivers[c.Fn]
+	} else {
+		receiver = dotted.BinderReceivers[c.Fn]
+	}
 	if c.Path == "dotless" {
 		fn = dotless.BinderFuncs[c.Fn]
 		reset = dotless.BinderReset
@@ -83,6 +89,11 @@ func runBinder(c *Case) Verdict {
 	}
 	reset(c.Mode)
 	form := []types.MalType{types.Symbol{Val: c.Name}}
+	if receiver != nil {
+		// a method expression: its receiver (a host value held in a global) is the first lisp argument
+		ns.Set(types.Symbol{Val: "the-receiver"}, receiver)
+		form = append(form, types.Symbol{Val: "the-receiver"})
+	}
 	for i, a := range c.Args {
 		if i == len(c.Args)-1 && c.CtxEnd == 1 {
 			// the last argument is (cancel!), whose value is nil: the context ends while the arguments are evaluated
